@@ -115,7 +115,8 @@ def translate_request(handler):
         key = 'HTTP_%s' % hdr_name.replace('-', '_')
         environ[key] = hdr_value
 
-    environ['wsgi.url_scheme'] = environ.get('HTTP_X_FORWARDED_PROTO', 'http')
+    environ['wsgi.url_scheme'] = environ.get('HTTP_X_FORWARDED_PROTO',
+                                             handler.request.protocol)
 
     path_info = uri_parts.path
 
